@@ -66,7 +66,7 @@ def run(tier, seed, drv):
             vectors = [v for v in vectors if rng.random() < 90 / len(vectors)] + [tuple([3] + [0] * (len(procs) - 1)), tuple([0] + [3] * (len(procs) - 1))]
         for vec in vectors:
             delays = dict(zip(procs, vec))
-            for b in ("sync", "held"):
+            for b in ("sync", "internal", "held"):   # "internal" = tickit's own InternalStateServer, observed
                 s2 = dict(copy.deepcopy(scn), start_delays=delays)
                 sd = rng.randrange(1 << 30)
                 run_ = run_scenario(s2, bus=b, seed=sd)
@@ -79,12 +79,12 @@ def run(tier, seed, drv):
         # early interrupts: a component that is already running raises before the late scheduler is up
         for late in range(2, maxd + 3):
             for who in [c["name"] for c in S.devices(scn)][:3]:
-                for at in range(1, late + 1):
+                for at, eb in itertools.product(range(1, late + 1), ("sync", "internal")):
                     s2 = dict(copy.deepcopy(scn), start_delays={"": late}, stims=[{"step": 1 + at, "comp": who}], n_ticks=4, t0=(0 if (late + at) % 2 else 7_000_000))
-                    run_ = run_scenario(s2, bus="sync")
-                    case = {"scenario": s2, "bus": "sync", "early_interrupt": True}
+                    run_ = run_scenario(s2, bus=eb)
+                    case = {"scenario": s2, "bus": eb, "early_interrupt": True}
                     raised = [e for e in run_["trace"].of("raise") if e.get("ok")]
-                    res.case(f"{ci}:early:{late}:{who}:{at}", nontrivial=bool(raised))
+                    res.case(f"{ci}:early:{late}:{who}:{at}:{eb}", nontrivial=bool(raised))
                     res.count("early-interrupt" if raised else "early-interrupt-not-raised")
                     n = SC.check_run(s2, run_, drv, res, monitors_on=("initial_tick", "ticker", "tick_times"), corr=("ticker",), case_extra=case)
                     if n == 0 and raised:
@@ -96,7 +96,7 @@ def run(tier, seed, drv):
                         # an interrupt raised that early arrives during the initial tick and is served by a
                         # tick of its own at the initial time; the late scheduler must do the same
                         n_at_t0 = len([u for u in run_["trace"].of("update") if u["comp"] == who and u["time"] == s2["t0"]])
-                        same = run_scenario(dict(copy.deepcopy(scn), stims=s2["stims"], n_ticks=4, t0=s2["t0"]), bus="sync")
+                        same = run_scenario(dict(copy.deepcopy(scn), stims=s2["stims"], n_ticks=4, t0=s2["t0"]), bus=eb)
                         raised_same = [e for e in same["trace"].of("raise") if e.get("ok")]
                         if raised_same:
                             m_at_t0 = len([u for u in same["trace"].of("update") if u["comp"] == who and u["time"] == s2["t0"]])
